@@ -225,7 +225,7 @@ def gen(rng, tier):
     n = 30 if tier == "quick" else 300
     # (A) validation rules: the model's verdict and object bookkeeping against the library's
     for k in range(n):
-        kind = ["analysis", "abf", "moving", "meta", "abfhist"][k % 5]
+        kind = ["analysis", "abf", "moving", "meta", "abfhist", "metarep"][k % 6]
         L = ["m.new %d" % NATOMS, "M.noclock", cfg(REF)]
         meta = {"kind": kind}
         if kind == "analysis":
@@ -247,6 +247,15 @@ def gen(rng, tier):
             t += "}\n"
             L.append("v.cfg abf %d %d 1 %d %s" % (full, mn, mf, esc(t)))
             meta.update(full=full, mn=mn, mf=mf)
+        elif kind == "metarep":
+            # a walker of a multiple-walker metadynamics: the exchange frequency must be positive, the hill frequency may be zero
+            u, nhf = rng.choice([0, 0, 1, 2, 3]), rng.choice([0, 1, 2])
+            L.append("m.chdir %s" % os.path.join(work, "metarep%d" % k))
+            L.append("m.opt prefix mr%d" % k)
+            t = ("metadynamics {\n name vb\n colvars r\n hillWeight 0.1\n hillWidth 2.0\n useGrids off\n newHillFrequency %d\n multipleReplicas on\n replicaID w0\n"
+                 " replicasRegistry reg.txt\n replicaUpdateFrequency %d\n}\n" % (nhf, u))
+            L.append("v.cfg metarep %d %s" % (u, esc(t)))
+            meta.update(u=u, nhf=nhf)
         elif kind == "abfhist":
             # historyFreq against outputFreq, a zero on either side included
             hf, of_ = rng.choice([0, 2, 3, 4, 5, 6, 9]), rng.choice([0, 0, 1, 2, 3, 4])
@@ -257,12 +266,12 @@ def gen(rng, tier):
         elif kind == "moving":
             ch, ns = rng.randint(0, 1), rng.randint(0, 4)
             t = "harmonic {\n name vb\n colvars r\n centers 0.5\n forceConstant 2.0\n"
-            if k % 10 == 2:
+            if k % 12 == 2:
                 ch = 1                                # directed: every other moving case leaves the keyword out
-            omit = ch and (k % 10 == 2 or rng.rand() < 0.3)
+            omit = ch and (k % 12 == 2 or rng.rand() < 0.3)
             if omit:
                 ns = 0                                # the keyword left out: the default (0 steps) must be rejected like an explicit 0
-                t += " targetCenters 1.0\n" + (" targetNumStages 2\n" if k % 20 == 2 else "")     # (staged: the remainder by the number of steps is an integer one)
+                t += " targetCenters 1.0\n" + (" targetNumStages 2\n" if k % 12 == 2 else "")     # (staged: the remainder by the number of steps is an integer one)
             elif ch:
                 t += " targetCenters 1.0\n targetNumSteps %d\n" % ns     # the keyword is only known to a moving restraint
             t += "}\n"
